@@ -28,7 +28,7 @@ ASSUMPTIONS = [
     "fill characters are restricted to one-column glyphs",
 ]
 PERSONAS = ["other", "kitty-0.32", "konsole", "wezterm", "iterm2"]
-SIZES = {"quick": 500, "thorough": 100000}
+SIZES = {"quick": 500, "thorough": 40000}
 MIN_EVENTS = {"padded outputs executed": {"quick": 4000, "thorough": 40000}}
 
 
